@@ -205,7 +205,7 @@ func TestC01(t *testing.T) {
 		reclaim bool
 		subj    []string
 	}
-	cfgs := []cfg{{"reclaim0", false, subjects}, {"reclaim10s", true, subjects}, {"top-incarnation-reclaim10s", true, subjects}}
+	cfgs := []cfg{{"reclaim0", false, subjects}, {"reclaim10s", true, subjects}, {"top-incarnation-reclaim10s", true, subjects}, {"alive-filter-refuses-m1-reclaim10s", true, subjects}}
 	if thorough() {
 		cfgs = append(cfgs, cfg{"two-subjects-reclaim10s", true, []string{"x", "y"}})
 	}
@@ -228,6 +228,9 @@ func TestC01(t *testing.T) {
 		wc := worldCfg{Peers: 2}
 		if c.reclaim {
 			wc.Reclaim = 10 * 1e9
+		}
+		if strings.HasPrefix(c.name, "alive-filter") {
+			wc.AliveVeto = "m1"
 		}
 		capc := cap
 		if len(c.subj) > 1 {
